@@ -20,7 +20,6 @@ import numpy as np
 from harness import common
 from harness import c18_traces as TR
 from harness import c18_trees as T
-from harness import graphlit
 from harness.common import cbool, clist, cstr
 
 PROPERTY = "C18"
@@ -157,24 +156,16 @@ def run_trees(ctx, cfg):
             stats["errors"] += 1
             invalid.append((name, spec, r["error"]))
             continue
-        # ---- direct oracle: the property on the real code
+        # ---- direct oracle: the property on the real code (decided below, once the model has been evaluated)
         want = [(_root_name(spec) + "." + k) if _root_name(spec) else k for k in r["sd"]]
         once = all(sum(1 for v in r["init_ids"].values() if v == pobj) == 1 for pobj in set(r["sd_ids"]))
-        ok = (r["inits"] == want) and once and len(set(r["inits"])) == len(r["inits"])
+        ok = (sorted(r["inits"]) == sorted(want)) and once and len(set(r["inits"])) == len(r["inits"])
+        what = None
         if not ok:
-            why = _classify(spec, feats, cfg)
             what = (f"{name}: initializer names {r['inits']} but root name + state_dict keys {want}"
                     + ("" if once else "; a Parameter object is not stored exactly once"))
-            if why == "explicit":
-                stats["hyp_explicit"] += 1
-            elif why is not None:
-                stats["oracle_mismatch_explained"] += 1
-                ctx.violation(why, what, {"program": T.spec_lit(spec), "initializers": r["inits"], "state_dict": r["sd"]})
-            else:
-                ctx.violation("C18:naming:" + ("unattached-container-root" if spec[0] != "mod" else "consistent-program"), what,
-                              {"program": T.spec_lit(spec), "initializers": r["inits"], "state_dict": r["sd"]})
         cases.append(f"({T.spec_lit(spec)}, {clist(r['inits'], cstr)}, {clist(r['sd'], cstr)})")
-        meta.append((name, spec, r, ok))
+        meta.append((name, spec, r, ok, feats, what))
 
     # ---- correspondence: the Coq model on the same programs, with the probed configuration
     cf = cfg_lit(cfg)
@@ -197,16 +188,30 @@ def run_trees(ctx, cfg):
         hyps = _parse_bools(vals[1])
         valid = _parse_bools(vals[2])
         for j, h in enumerate(hyps):
-            name, spec, r, ok = meta[k * shard + j]
+            name, spec, r, ok, feats, what = meta[k * shard + j]
             if h:
                 hyp_true += 1
                 if not ok:
                     hyp_but_mismatch.append(name)
             if not valid[j]:
                 ctx.tie_broken("correspondence", "modelA:validity", f"{name}: the real code ran but the model says calling raises")
-    for i in bad_total:
-        name, spec, r, ok = meta[i]
-        ctx.tie_broken("correspondence", "modelA:names", f"{name}: {T.spec_lit(spec)} real initializers {r['inits']} state_dict {r['sd']}; model differs")
+    bad_set = set(bad_total)
+    for i, (name, spec, r, ok, feats, what) in enumerate(meta):
+        doc = {"program": T.spec_lit(spec), "initializers": r["inits"], "state_dict": r["sd"]}
+        if ok and i in bad_set:
+            ctx.tie_broken("correspondence", "modelA:names", f"{name}: {T.spec_lit(spec)} real initializers {r['inits']} state_dict {r['sd']}; model differs")
+        elif not ok and i in bad_set:
+            # the property fails on the real code and not in the way the model (with the probed behaviours) predicts
+            ctx.violation("C18:naming:initializer-names-differ-from-state-dict-keys:" + ("container-root" if spec[0] != "mod" else "module-root"), what, doc)
+        elif not ok:
+            why = _classify(spec, feats, cfg)
+            if why == "explicit":
+                stats["hyp_explicit"] += 1
+            elif why is not None:
+                stats["oracle_mismatch_explained"] += 1
+                ctx.violation(why, what, doc)
+            else:
+                ctx.violation("C18:naming:" + ("unattached-container-root" if spec[0] != "mod" else "consistent-program"), what, doc)
     for name in hyp_but_mismatch:
         ctx.tie_broken("correspondence", "modelA:hypotheses", f"{name}: program_okb holds but the real names differ from state_dict keys")
     if invalid:
@@ -296,7 +301,7 @@ def run_traces(ctx, bcfg):
     rng = ctx.rng
     n = 200 if ctx.tier == "quick" else 4000
     bc = "bcfg_fixed" if bcfg["shared_counter"] else "bcfg_pinned"
-    coq_cases, coq_meta, wf_terms, wf_meta = [], [], [], []
+    coq_cases, coq_meta, wf_meta = [], [], []
     tot = _new_stats()
     cnt = {"traces": 0, "models": 0, "with_sub": 0, "with_fn": 0, "redefines": 0, "disjoint": 0, "ort_runs": 0,
            "node_names_repeated_across_graphs": 0, "inline_vs_call": 0}
@@ -353,21 +358,27 @@ def run_traces(ctx, bcfg):
             except Exception as e:  # noqa: BLE001
                 if not rep["redefines_visible"]:
                     ctx.violation("C18:valid:onnx-checker-rejects", f"trace {t} ({mode}): {str(e)[:300]}", replay_doc)
-            wf_terms.append(graphlit.graph_lit(proto.graph))
-            wf_meta.append((t, mode, bool(rep["redefines_visible"] or rep["disjoint_dups"])))
-            coq_cases.append(TR.trace_case_lit(tr, info, proto))
-            coq_meta.append((t, mode))
+            # Coq: every call-mode model; a quarter of the inline-mode ones (their nodes are observed, CRaw)
+            if mode == "call" or t % 4 == 0:
+                wf_meta.append((t, mode, bool(rep["redefines_visible"] or rep["disjoint_dups"])))
+                coq_cases.append(TR.trace_case_lit(tr, info, proto))
+                coq_meta.append((t, mode))
             # ---- semantics: onnxruntime (no optimisation) against the NumPy reading, on objects (duplicates renamed apart)
             if rep["redefines_visible"] or rep["disjoint_dups"]:
                 TR.uniquify_for_execution(info)
                 proto = TR.serialize(info)
             outs = []
-            for k in range(3):
+            try:
+                sess = TR.ort_session(proto)
+            except Exception as e:  # noqa: BLE001
+                ctx.violation("C18:valid:onnxruntime-rejects", f"trace {t} ({mode}): {str(e)[:300]}", replay_doc)
+                sess = None
+            for k in range(3 if sess is not None else 0):
                 feeds = TR.make_feeds(tr, k)
                 try:
-                    got = TR.ort_run(proto, feeds)
+                    got = sess.run(None, feeds)
                 except Exception as e:  # noqa: BLE001
-                    ctx.violation("C18:valid:onnxruntime-rejects", f"trace {t} ({mode}): {str(e)[:300]}", replay_doc)
+                    ctx.violation("C18:valid:onnxruntime-fails", f"trace {t} ({mode}): {str(e)[:300]}", replay_doc)
                     break
                 cnt["ort_runs"] += 1
                 want = TR.np_replay(tr, feeds)
@@ -388,15 +399,13 @@ def run_traces(ctx, bcfg):
                     break
 
     # ---- correspondence with the Coq model `build` + verified wf_graphb on the real graphs
-    shard = 60
+    shard = 50
     bodies = []
     for a in range(0, len(coq_cases), shard):
-        wf = wf_terms[a:a + shard]
-        defs = "\n".join(f"Definition w{i} : graph := {g}." for i, g in enumerate(wf))
         bodies.append(f"Definition cases : list tcase := {clist(coq_cases[a:a + shard])}.\n"
-                      f"Eval vm_compute in (tdisagreeing {bc} 0 cases).\n" + defs +
-                      f"\nEval vm_compute in (map wf_graphb {clist([f'w{i}' for i in range(len(wf))])}).\n")
-    res = ctx.coq_eval_shards(REQ_T, bodies, par=8)
+                      f"Eval vm_compute in (tdisagreeing {bc} 0 cases).\n"
+                      "Eval vm_compute in (map (fun c => wf_graphb (tcase_graph c)) cases).\n")
+    res = ctx.coq_eval_shards(REQ_T, bodies, par=4)
     disagree, wf_bad = [], []
     for k, (okc, vals, raw) in enumerate(res):
         if not okc or len(vals) < 2:
@@ -422,6 +431,48 @@ def run_traces(ctx, bcfg):
               traces_redefining_outer_name=cnt["redefines"], traces_disjoint_duplicates=cnt["disjoint"], ort_runs=cnt["ort_runs"],
               traces_inline_vs_call_compared=cnt["inline_vs_call"], models_node_names_repeated_across_graphs=cnt["node_names_repeated_across_graphs"],
               trace_model_disagreements=len(disagree), probed_bcfg=bcfg)
+
+
+def replay_subgraph_witness(ctx, bcfg):
+    """The witness of C18_names_unique_across_subgraphs_refuted on the real builder:
+    a = op.Add(x, x); op.If(c, then_branch = subgraph(op.Add(a, a)), else_branch = subgraph(op.Identity(a)))."""
+    import onnx
+    import onnx_ir as ir
+    from onnxscript._internal import builder as B
+
+    g = ir.Graph(name="g", inputs=[], outputs=[], nodes=[], opset_imports={"": TR.OPSET})
+    gb = B.GraphBuilder(g)
+    x = gb.input("x", dtype=ir.DataType.FLOAT, shape=[2])
+    c = gb.input("c", dtype=ir.DataType.BOOL, shape=[])
+    a = gb.op.Add(x, x)
+    tg = gb.subgraph(lambda op: op.Add(a, a), [], [ir.Value(name=None)], name="then")
+    eg = gb.subgraph(lambda op: op.Identity(a), [], [ir.Value(name=None)], name="else")
+    for sg in (tg, eg):
+        sg.outputs[0].type = ir.TensorType(ir.DataType.FLOAT)
+        sg.outputs[0].shape = ir.Shape([2])
+    y = gb.op.If(c, then_branch=tg, else_branch=eg)
+    y.type = ir.TensorType(ir.DataType.FLOAT)
+    y.shape = ir.Shape([2])
+    g.outputs.append(y)
+    proto = ir.serde.serialize_model(ir.Model(g, ir_version=10))
+    rep = TR.name_report(proto.graph)
+    inner = tg.node(0).outputs[0].name
+    ctx.case(("witness", "subgraph-counter"))
+    try:
+        onnx.checker.check_model(proto)
+        checker = "accepted"
+    except Exception as e:  # noqa: BLE001
+        checker = "rejected: " + str(e)[:120]
+    expect_dup = not bcfg["shared_counter"]
+    if bool(rep["redefines_visible"]) != expect_dup or (inner == "v_Add_0") != expect_dup:
+        ctx.tie_broken("correspondence", "modelB:witness", f"subgraph Add is named {inner!r}, duplicates {rep['redefines_visible']}, probed {bcfg}")
+    if rep["redefines_visible"]:
+        ctx.violation(K_REDEF, f"witness: a = op.Add(x, x) is v_Add_0 and the Add inside the then-branch is {inner!r} too; onnx.checker: {checker}",
+                      {"witness": "w_subgraph_trace", "names": [n.outputs[0].name for n in g] + [inner]})
+        if checker == "accepted":
+            ctx.tie_broken("checker", "onnx.checker", "accepted a subgraph that redefines an outer name")
+    elif checker != "accepted":
+        ctx.violation("C18:valid:onnx-checker-rejects", f"witness model: {checker}", {"witness": "w_subgraph_trace"})
 
 
 def _has_fn(s):
@@ -450,7 +501,7 @@ def run_inline_args(ctx):
     variants = [
         ("python-attribute-value", lambda op, x, f: f(scaled_default, x, alpha=0.5), x_np * 0.5),
         ("omitted-attribute-with-default", lambda op, x, f: f(scaled_default, x), x_np * 2.0),
-        ("literal-operand", lambda op, x, f: op.Add(f(scaled_default, 3.0, alpha=0.5), x), x_np + 1.5),
+        ("literal-operand", lambda op, x, f: op.Add(f(scaled_default, 3.0, alpha=ir.AttrFloat32("alpha", 0.5)), x), x_np + 1.5),
     ]
     for name, fn, want in variants:
         outs = {}
@@ -482,13 +533,22 @@ def run(ctx):
     ctx.assume("model A: forward() of every generated module calls each child exactly once (or twice) in registration order, "
                "ModuleLists are iterated (optionally through forward-time slices); modules shared by two parents are not modelled")
     ctx.assume("model A: cfg (three code behaviours with proposed patches) is probed on the real code at the start of every run")
+    ctx.assume("models B/C: shared_counter is probed; which literal operands share a constant-cache entry is observed on the real builder "
+               "(C12 owns literal promotion); the dtype knowledge of the builder (shape inference) is observed per value; nodes added by "
+               "call_inline are observed (CRaw), not modelled; attribute order inside a node is not compared")
+    ctx.assume("kernel semantics: onnxruntime CPU kernels with ORT_DISABLE_ALL against a hand-written NumPy reading of 62 operators, "
+               "If, Loop (no scan outputs) and 6 script/IR functions, on 3 input sets per model, rtol 2e-4 / atol 2e-5")
     ctx.check_props()
     cfg = probe_cfg(ctx)
     run_trees(ctx, cfg)
     bcfg = probe_bcfg(ctx)
+    replay_subgraph_witness(ctx, bcfg)
     run_traces(ctx, bcfg)
     run_inline_args(ctx)
-    ctx.cover(rule="A: construction programs (witnesses of the _refuted theorems, random programs of depth <= 4 mixing Module/ModuleList/"
+    ctx.cover(rule="B/C: random traces over 62 operators + If/Loop subgraph bodies (depth <= 2) + op.call/op.call_inline of script and IR "
+                   "functions with attribute arguments, literal operands (ints/floats/lists), explicit _outputs, nested module scopes; every trace "
+                   "built with op.call and, when it calls functions, again with op.call_inline; distinct key = (mode, size bucket, depth, If, Loop, "
+                   "functions, explicit outputs, CastLike, literals).  A: construction programs (witnesses of the _refuted theorems, random programs of depth <= 4 mixing Module/ModuleList/"
                    "Sequential with constructor/early/late appends, slices, named/unnamed, shared parameters, subgraph bodies; thorough: all "
                    "programs with <= 5 modules over a small alphabet); distinct key = structural class (kinds, depth, features, size, error)")
     if ctx.tier == "thorough":
